@@ -139,7 +139,9 @@ def check_wrapper(ctx, fb, w, cfg, tag=""):
             elif "bool" in kinds:
                 k = kinds.index("bool") + 1
                 bv = cm.get(("b", ("unwrap", res)))
-                if not (len(ws) == 1 and ws[0][1][1] == -k and bv is not None and ws[0][3] == mk_const("bool", 1 if bv else 0)):
+                payload_ok = len(ws) == 1 and ws[0][1][1] == -k and (
+                    (bv is not None and ws[0][3] == mk_const("bool", 1 if bv else 0)) or ws[0][3] == ("unwrap", res))
+                if not payload_ok:
                     ctx.fail("R11-3", inst, "Ok arm must write the Ok payload to *bool_ptr; payload=%s writes=%s" % (
                         bv, [(x[1][1], sh(x[3], 60)) for x in ws]), where)
                     return
